@@ -22,6 +22,11 @@ def batch_desc(lst):
     return norm_i(el.term) if isinstance(el, VTens) else None, getattr(o, "comp_iter", None)
 
 
+def _known(t):
+    """False when the element contains an index the analyser could not describe."""
+    return t is not None and "'unk'" not in repr(t) and "elem(" not in repr(t)
+
+
 def sliced(base, size):
     i = T.sym("i")
     return T.app("index", base, (("slice", i, i + size, None),))
@@ -46,6 +51,9 @@ def run(ck):
         "bases given": dict(bases=True, same=False),
         "no bases, neg != pos": dict(bases=False, same=False),
         "no bases, neg == pos": dict(bases=False, same=True),
+        # the same state, after an earlier epoch / an earlier fit on a data set of another size with the same batch sizes
+        "bases given, after a call with other data": dict(bases=True, same=False, after=True),
+        "no bases, neg == pos, after a call with other data": dict(bases=False, same=True, after=True),
     }
     for cname, c in ctxs.items():
         inst = "_shuffle_data/" + cname
@@ -54,6 +62,9 @@ def run(ck):
                 s = make_state(it, "ComplexWaveFunction")
                 p_ = api.intsym("pb")
                 n_ = p_ if c["same"] else api.intsym("nbs")
+                if c.get("after"):
+                    call(it, s, "_shuffle_data", p_, n_, api.intsym("num_batches0"), tens(it, "train0", ("N0", "nv")),
+                         api.bases_arr(it, "bases0", "N0") if c["bases"] else VConst(None), tens(it, "zs0", ("Nz0", "nv")) if c["bases"] else VConst(None))
                 r = call(it, s, "_shuffle_data", p_, n_, api.intsym("num_batches"), tens(it, "train", ("N", "nv")),
                          api.bases_arr(it, "bases", "N") if c["bases"] else VConst(None), tens(it, "zs", ("Nz", "nv")) if c["bases"] else VConst(None))
                 return r
@@ -85,9 +96,12 @@ def run(ck):
                     continue
                 perm = T.P(perms[0])
                 shuffled = T.app("index", train, (("adv", perm),))
-                ck.check(pos_t == sliced(shuffled, pb), "C07.R2", inst + ":positive batch = rows [s, s+b) of the shuffled data", ssite,
+                # an element or an iteration the analyser could not describe (an unknown index, a list it cannot enumerate) is undecided, never wrong
+                known_t = _known(pos_t)
+                known_r = isinstance(pos_r, tuple) and pos_r and pos_r[0] == "range"
+                ck.check((pos_t == sliced(shuffled, pb)) if known_t else None, "C07.R2", inst + ":positive batch = rows [s, s+b) of the shuffled data", ssite,
                          "positive batch is %r; expected consecutive slices of size pos_batch_size of the shuffled data" % (pos_t,))
-                ck.check(pos_r == ("range", T.ZERO, T.sym("N"), pb), "C07.R2", inst + ":positive batches tile all N rows", ssite,
+                ck.check((pos_r == ("range", T.ZERO, T.sym("N"), pb)) if known_r else None, "C07.R2", inst + ":positive batches tile all N rows", ssite,
                          "positive batch starts run over %s; expected range(0, N, pos_batch_size)" % (pos_r,))
                 if c["bases"]:
                     b_t, b_r = batch_desc(srcs[2])
@@ -96,9 +110,10 @@ def run(ck):
                         ck.violation("C07.R1", inst + ":bases use the samples' permutation", ssite,
                                      "bases are shuffled with a different permutation (%r) than the samples (%r): measurements are paired with the wrong bases" % (bperm[0], perms[0]))
                     else:
-                        ck.check(b_t == sliced(T.app("index", T.sym("bases"), (("adv", perm),)), pb), "C07.R1", inst + ":bases use the samples' permutation", ssite,
+                        ck.check((b_t == sliced(T.app("index", T.sym("bases"), (("adv", perm),)), pb)) if _known(b_t) else None, "C07.R1", inst + ":bases use the samples' permutation", ssite,
                                  "bases batch is %r; expected the same permutation and the same slices as the samples" % (b_t,))
-                    ck.check(b_r == pos_r, "C07.R2", inst + ":bases tiled like the samples", ssite, "bases batch starts %s differ from sample batch starts %s" % (b_r, pos_r))
+                    ck.check((b_r == pos_r) if known_r and isinstance(b_r, tuple) and b_r and b_r[0] == "range" else None, "C07.R2", inst + ":bases tiled like the samples", ssite,
+                             "bases batch starts %s differ from sample batch starts %s" % (b_r, pos_r))
                 # ---------------- R4 negative source
                 nsz = pb if c["same"] else nb
                 if c["bases"]:
@@ -107,10 +122,12 @@ def run(ck):
                     src, bound = train, T.sym("N")
                 ri = [a for a in (neg_t.all_atoms() if neg_t is not None else []) if isinstance(a, T.App) and a.op in ("randint", "randperm")]
                 if c["same"]:
-                    ck.check(neg_t == sliced(shuffled, pb), "C07.R4", inst + ":negative rows are training rows", ssite, "negative batch is %r; expected the shuffled training rows" % (neg_t,))
+                    ck.check((neg_t == sliced(shuffled, pb)) if _known(neg_t) else None, "C07.R4", inst + ":negative rows are training rows", ssite, "negative batch is %r; expected the shuffled training rows" % (neg_t,))
                 else:
                     okn = len(ri) == 1 and ri[0].op == "randint" and neg_t == sliced(T.app("index", src, (("adv", T.P(ri[0])),)), nsz)
-                    if not okn and neg_t is not None:
+                    if not okn and not _known(neg_t):
+                        okn = None
+                    if okn is False and neg_t is not None:
                         # rows of the right tensor selected by an index expression the analyser cannot bound: undecided, not wrong
                         at = neg_t.single_atom()
                         inner = at.args[0].single_atom() if at is not None and isinstance(at, T.App) and at.op == "index" else None
